@@ -1,12 +1,29 @@
-import OrdModel.Codec.Envelope
+import OrdModel.Proofs.EnvelopeRoundTrip
+import OrdModel.Proofs.EnvelopeCompact
 /-!
 # C27 — Inscription envelopes round-trip and envelope parsing is total
 
-Property theorems only; helper lemmas are in `OrdModel/Proofs/Envelope*.lean` and
-`OrdModel/Proofs/ScriptW5.lean`, the model in `OrdModel/Codec/{ScriptW5,Envelope}.lean`.
+Property theorems only; helper lemmas are in `OrdModel/Proofs/ScriptW5.lean` and
+`OrdModel/Proofs/Envelope{Total,Build,Parse,Spec,RoundTrip,Compact}.lean`, the model in
+`OrdModel/Codec/{ScriptW5,Envelope}.lean`.
+
+Vocabulary: `batchRevealScript is` = bytes appended by
+`Inscription::append_batch_reveal_script_to_builder`; `encode pre` = a script prefix written with
+`script::Builder` (`push_slice` / `push_opcode`); `fromWitnesses ws` =
+`ParsedEnvelope::from_transaction` of a transaction whose inputs carry the witnesses `ws`;
+`expectedEnvelopes input 0 is` = one envelope per inscription, in order, `offset = 0,1,…`,
+`pushnum = stutter = false`, payload `expectedPayload i`.
 -/
 namespace Ord.Envelope
 open Ord Ord.ScriptW5
+
+/-! ## 1. Round trip -/
+
+/-- **Key lemma**: whatever `Builder::push_slice` wrote for a slice shorter than 2^32 bytes,
+`Script::instructions()` reads back as exactly that push and continues right behind it. -/
+theorem c27_push_roundtrip (data rest : Bytes) (h : data.length < 2 ^ 32) :
+    instructions (pushSlice data ++ rest) = .ok (.push data) :: instructions rest :=
+  instructions_pushSlice data rest h
 
 /-- The tapscript ord looks at: for a script-path witness `[…, script, control_block]` whose
 control block does not start with the annex byte 0x50 it is `script`; with an annex
@@ -18,5 +35,212 @@ theorem c27_tapscript_selection (stack : List Bytes) (script cb annex : Bytes)
   constructor
   · simp [tapscriptOf, hcb]
   · simp [tapscriptOf, hannex]
+
+theorem rawFromWitnesses_skip : ∀ (bs : List (List Bytes)) (i : Nat) (ws : List (List Bytes)),
+    (∀ b ∈ bs, tapscriptOf b = none) →
+    rawFromWitnesses i (bs ++ ws) = rawFromWitnesses (i + bs.length) ws := by
+  intro bs
+  induction bs with
+  | nil => intro i ws _; simp
+  | cons b bs ih =>
+    intro i ws h
+    simp only [List.cons_append, rawFromWitnesses, h b (by simp), List.length_cons]
+    rw [ih (i + 1) ws (fun c hc => h c (by simp [hc]))]
+    congr 1; omega
+
+/-- **Round trip, any number of inscriptions, any field combination and size.**
+Take any inscriptions `is` (raw field values of any length; un-chunked values shorter than
+2^32 bytes, which is what the builder itself requires), write them with ord's batch reveal
+builder behind any builder-written prefix that contains no empty push (e.g. `<key> OP_CHECKSIG`),
+and put the script into the script-path slot of the witness of input number `before.length`
+(the other inputs carrying no tapscript).  Then `ParsedEnvelope::from_transaction` returns exactly
+one envelope per inscription, in order, with `input = before.length`, `offset = 0 … k-1`,
+`pushnum = stutter = false`, and payload `expectedPayload i`. -/
+theorem c27_roundtrip (pre : List Instr) (is : List Inscription) (stack : List Bytes) (cb : Bytes)
+    (before after : List (List Bytes))
+    (hpre : ∀ ins ∈ pre, ins.encodable = true ∧ ins ≠ .push [])
+    (hsized : ∀ i ∈ is, buildable i = true) (hk : is.length ≤ 2 ^ 32)
+    (hinput : before.length < 2 ^ 32) (hcb : cb.head? ≠ some 0x50)
+    (hother : ∀ w ∈ before ++ after, tapscriptOf w = none) :
+    fromWitnesses (before ++ (stack ++ [encode pre ++ batchRevealScript is, cb]) :: after) =
+      .ok (expectedEnvelopes before.length 0 is) := by
+  unfold fromWitnesses
+  rw [rawFromWitnesses_skip before 0 _ (fun b hb => hother b (by simp [hb]))]
+  simp only [rawFromWitnesses, (c27_tapscript_selection stack _ cb [0x50] hcb rfl).1, Nat.zero_add]
+  rw [fromTapscript_batch before.length hinput pre hpre is hsized hk]
+  have := rawFromWitnesses_skip after (before.length + 1) [] (fun b hb => hother b (by simp [hb]))
+  simp only [List.append_nil, rawFromWitnesses] at this
+  rw [this]
+  simp only [List.append_nil]
+  exact parseAll_expectedRaw before.length is 0
+
+/-- The same with an annex as last witness element. -/
+theorem c27_roundtrip_annex (pre : List Instr) (is : List Inscription) (stack : List Bytes)
+    (cb annex : Bytes) (before after : List (List Bytes))
+    (hpre : ∀ ins ∈ pre, ins.encodable = true ∧ ins ≠ .push [])
+    (hsized : ∀ i ∈ is, buildable i = true) (hk : is.length ≤ 2 ^ 32)
+    (hinput : before.length < 2 ^ 32) (hannex : annex.head? = some 0x50)
+    (hother : ∀ w ∈ before ++ after, tapscriptOf w = none) :
+    fromWitnesses (before ++ (stack ++ [encode pre ++ batchRevealScript is, cb, annex]) :: after) =
+      .ok (expectedEnvelopes before.length 0 is) := by
+  unfold fromWitnesses
+  rw [rawFromWitnesses_skip before 0 _ (fun b hb => hother b (by simp [hb]))]
+  have hsel : tapscriptOf (stack ++ [encode pre ++ batchRevealScript is, cb, annex]) =
+      some (encode pre ++ batchRevealScript is) := by simp [tapscriptOf, hannex]
+  simp only [rawFromWitnesses, hsel, Nat.zero_add]
+  rw [fromTapscript_batch before.length hinput pre hpre is hsized hk]
+  have := rawFromWitnesses_skip after (before.length + 1) [] (fun b hb => hother b (by simp [hb]))
+  simp only [List.append_nil, rawFromWitnesses] at this
+  rw [this]
+  simp only [List.append_nil]
+  exact parseAll_expectedRaw before.length is 0
+
+/-- What comes back, field by field: every data field is the one written — a chunked field
+(metadata, properties) holding `Some(vec![])` writes no push and comes back as `None`, which is
+why the property says "non-empty values"; every other field, including empty un-chunked values
+and an empty body, comes back unchanged — and the three parser flags are
+`incomplete_field = unrecognized_even_field = false`, `duplicate_field = dupRule`. -/
+theorem c27_expected_fields (i : Inscription) :
+    (expectedPayload i).body = i.body ∧
+    (expectedPayload i).contentEncoding = i.contentEncoding ∧
+    (expectedPayload i).contentType = i.contentType ∧
+    (expectedPayload i).delegate = i.delegate ∧
+    (expectedPayload i).metaprotocol = i.metaprotocol ∧
+    (expectedPayload i).parents = i.parents ∧
+    (expectedPayload i).pointer = i.pointer ∧
+    (expectedPayload i).propertyEncoding = i.propertyEncoding ∧
+    (expectedPayload i).rune = i.rune ∧
+    (i.metadata ≠ some [] → (expectedPayload i).metadata = i.metadata) ∧
+    (i.properties ≠ some [] → (expectedPayload i).properties = i.properties) ∧
+    (i.metadata = some [] → (expectedPayload i).metadata = none) ∧
+    (i.properties = some [] → (expectedPayload i).properties = none) ∧
+    (expectedPayload i).incompleteField = false ∧
+    (expectedPayload i).unrecognizedEvenField = false ∧
+    (expectedPayload i).duplicateField = dupRule i := by
+  refine ⟨rfl, rfl, rfl, rfl, rfl, rfl, rfl, rfl, rfl, ?_, ?_, ?_, ?_, rfl, rfl, rfl⟩
+  · intro h
+    simp only [expectedPayload]
+    cases hm : i.metadata with
+    | none => rfl
+    | some v => cases v with
+      | nil => exact absurd hm h
+      | cons _ _ => rfl
+  · intro h
+    simp only [expectedPayload]
+    cases hm : i.properties with
+    | none => rfl
+    | some v => cases v with
+      | nil => exact absurd hm h
+      | cons _ _ => rfl
+  · intro h; simp [expectedPayload, h, normChunked]
+  · intro h; simp [expectedPayload, h, normChunked]
+
+/-- Exactly when the parser sets `duplicate_field` on ord's own output: more than one parent,
+or metadata / properties longer than one 520-byte push (they are written as repeated tags). -/
+theorem c27_duplicate_rule (i : Inscription) :
+    dupRule i = true ↔
+      i.parents.length > 1 ∨ (∃ m, i.metadata = some m ∧ m.length > 520) ∨
+        (∃ p, i.properties = some p ∧ p.length > 520) := by
+  simp only [dupRule, Bool.or_eq_true, decide_eq_true_eq]
+  constructor
+  · rintro ((h | h) | h)
+    · exact Or.inl h
+    · cases hm : i.metadata with
+      | none => simp [hm, optLen] at h
+      | some m => exact Or.inr (Or.inl ⟨m, rfl, by simpa [hm, optLen] using h⟩)
+    · cases hm : i.properties with
+      | none => simp [hm, optLen] at h
+      | some m => exact Or.inr (Or.inr ⟨m, rfl, by simpa [hm, optLen] using h⟩)
+  · rintro (h | ⟨m, hm, h⟩ | ⟨m, hm, h⟩)
+    · exact Or.inl (Or.inl h)
+    · exact Or.inl (Or.inr (by simpa [hm, optLen] using h))
+    · exact Or.inr (by simpa [hm, optLen] using h)
+
+/-- The builder's own precondition: `revealScriptO` (the builder with its `unwrap`) succeeds
+exactly on `buildable` inscriptions, and then produces `revealScript`. -/
+theorem c27_builder_ok (i : Inscription) (h : buildable i = true) :
+    revealScriptO i = .ok (revealScript i) := by
+  simp [revealScriptO, h]
+
+/-! ## 2. Totality -/
+
+/-- **Parsing any witnesses never panics**: for every transaction (at most 2^32 inputs, every
+witness element at most 2^32 bytes — the `usize → u32` conversions of the input index and the
+envelope counter cannot fail below that) `ParsedEnvelope::from_transaction` returns; none of
+the slice / `unwrap` sites, nor the model's own fuel bound, is reached. -/
+theorem c27_total (ws : List (List Bytes)) (hn : ws.length ≤ 2 ^ 32)
+    (hl : ∀ w ∈ ws, ∀ e ∈ w, e.length ≤ 2 ^ 32) : ∀ s, fromWitnesses ws ≠ .panic s := by
+  intro s
+  unfold fromWitnesses
+  have h := rawFromWitnesses_total ws 0 (by omega) hl
+  cases hr : rawFromWitnesses 0 ws with
+  | ok raws => exact parseAll_total raws s
+  | err e => simp
+  | panic s' => exact absurd hr (h s')
+
+/-- … in particular every byte string, taken as a tapscript, is parsed without panic, and
+every raw envelope (any pushes whatsoever) converts without panic. -/
+theorem c27_total_tapscript (input : Nat) (script : Bytes) (hi : input < 2 ^ 32)
+    (hs : script.length ≤ 2 ^ 32) : ∀ s, fromTapscript input script ≠ .panic s :=
+  fromTapscript_total input script hi hs
+
+theorem c27_total_parse (e : Raw) : ∀ s, parse e ≠ .panic s := parse_total e
+
+/-- `InscriptionId::from_value` never panics (its `Txid::from_slice(..).unwrap()` is
+unreachable). -/
+theorem c27_total_from_value (v : Bytes) : ∀ s, InscriptionId.fromValue v ≠ .panic s :=
+  fromValue_total v
+
+/-! ## 3. Compact encodings -/
+
+/-- `pointer()` of `pointer_value(p)` is `p`, for every `u64`. -/
+theorem c27_pointer_roundtrip (p : Nat) (hp : p < 2 ^ 64) :
+    pointerOf (some (pointerValue p)) = some p := pointer_roundtrip p hp
+
+/-- `from_value(value(id)) = Some(id)` for every id (32-byte txid, `u32` index). -/
+theorem c27_id_roundtrip (id : InscriptionId) (ht : id.txid.length = 32) (hi : id.index < 2 ^ 32) :
+    InscriptionId.fromValue id.value = .ok (some id) := fromValue_value id ht hi
+
+/-- Pointer, delegate and parents survive the whole trip: an inscription built from a pointer
+`p`, a delegate id and parent ids (as `Inscription::new` does) is written, parsed back
+(`expectedPayload`, by `c27_roundtrip`), and the accessors `pointer()`, `delegate()`,
+`parents()` return the original values. -/
+theorem c27_compact_survive (i : Inscription) (p : Nat) (d : InscriptionId) (ps : List InscriptionId)
+    (hp : p < 2 ^ 64) (hd : d.txid.length = 32 ∧ d.index < 2 ^ 32)
+    (hps : ∀ id ∈ ps, id.txid.length = 32 ∧ id.index < 2 ^ 32)
+    (h1 : i.pointer = some (pointerValue p)) (h2 : i.delegate = some d.value)
+    (h3 : i.parents = ps.map InscriptionId.value) :
+    pointerOf (expectedPayload i).pointer = some p ∧
+    delegateOf (expectedPayload i) = .ok (some d) ∧
+    parentsOf (expectedPayload i).parents = .ok ps := by
+  refine ⟨?_, ?_, ?_⟩
+  · show pointerOf i.pointer = some p
+    rw [h1]; exact pointer_roundtrip p hp
+  · show delegateOf (expectedPayload i) = .ok (some d)
+    simp only [delegateOf, expectedPayload, h2]
+    exact fromValue_value d hd.1 hd.2
+  · show parentsOf i.parents = .ok ps
+    rw [h3]; exact parentsOf_values ps hps
+
+/-! ## Non-vacuity -/
+
+/-- a concrete inscription meeting the hypotheses of `c27_roundtrip` -/
+def sample : Inscription :=
+  { contentType := some [0x74, 0x65, 0x78, 0x74], body := some [0x68, 0x69],
+    metadata := some [0xa0], parents := [[1, 2], [3]], pointer := some [0x10] }
+
+example : buildable sample = true := by decide
+example : dupRule sample = true := by decide
+example : ∀ ins ∈ [Instr.push (List.replicate 32 7), Instr.op 0xac],
+    ins.encodable = true ∧ ins ≠ .push [] := by decide
+example : tapscriptOf [[0x01], []] = some [0x01] := by decide
+example : tapscriptOf [[0x01], [0x50]] = none := by decide
+example : (expectedPayload { metadata := some [] }).metadata = none := by decide
+example : pointerValue 256 = [0x00, 0x01] := by decide
+example : pointerOf (some [0, 0, 0, 0, 0, 0, 0, 0, 1]) = none := by decide
+example : (InscriptionId.mk (List.replicate 32 0xab) 256).value.length = 34 := by decide
+example : fromWitnesses [[[0x00, 0x63, 0x03, 0x6f, 0x72, 0x64, 0x68], []]] =
+    .ok [{ input := 0, offset := 0, payload := {}, pushnum := false, stutter := false }] := by decide
+example : fromWitnesses [[[0x00, 0x63, 0x03, 0x6f, 0x72, 0x64, 0x4c], []]] = .ok [] := by decide
 
 end Ord.Envelope
